@@ -300,8 +300,8 @@ static int setup_kind(const char *name)
 /* =========================================================== C16: allocation-failure enumeration */
 
 static const char *PRIOR[] = {"zeros", "0xFF", "0xA5", "copy-of-live-object", "copy-of-cleaned-up-object", "painted (--paint pattern; poisoned under MemorySanitizer)"};
-enum { F_CLEANUP, F_KEY, F_CTR, F_ENC, F_SWAP, F_CLEANUP2, F_NOPS };
-static const char *FNAME[] = {"cleanup", "set_key", "set_counter", "use", "swap_modes", "cleanup"};
+enum { F_CLEANUP, F_KEY, F_CTR, F_ENC, F_SWAP, F_CLEANUP2, F_KEY2, F_NOPS };
+static const char *FNAME[] = {"cleanup", "set_key", "set_counter", "use", "swap_modes", "cleanup", "set_key(other variant)"};
 
 static int f_call(int okind, Cipher c, void *h, int op)
 {
@@ -311,6 +311,9 @@ static int f_call(int okind, Cipher c, void *h, int op)
     case F_CLEANUP: case F_CLEANUP2: if (okind == OK_CTR) ctr_cleanup(c, co); else par_cleanup(c, po); return 0;
     case F_KEY: return okind == OK_CTR ? ctr_set_key(c, co, KEYS[0], c == CK_MANTIS ? 16 : (unsigned)cipher_bs(c), 5)
                                        : par_set_key(c, po, KEYS[0], c == CK_MANTIS ? 16 : (unsigned)cipher_bs(c), 5, MANTIS_ENCRYPT);
+    case F_KEY2:     /* Mantis: the other direction; Skinny: the longest key / the tweaked entry point */
+        if (c == CK_MANTIS) return okind == OK_CTR ? ctr_set_key(c, co, KEYS[1], 16, 8) : par_set_key(c, po, KEYS[1], 16, 8, MANTIS_DECRYPT);
+        return okind == OK_CTR ? ctr_set_tweaked_key(c, co, KEYS[1], (unsigned)cipher_bs(c) * 2) : par_set_key(c, po, KEYS[1], (unsigned)cipher_bs(c) * 3, 5, MANTIS_ENCRYPT);
     case F_CTR: return okind == OK_CTR ? ctr_set_counter(c, co, KEYS[1], (unsigned)cipher_bs(c)) : 0;
     case F_ENC: return okind == OK_CTR ? ctr_encrypt(c, co, out, in, 9) : par_crypt(c, po, out, in, tw, (size_t)par_batch(c, cipher_max_be(c)) + (size_t)cipher_bs(c), 0);
     default: if (okind == OK_PAR && c == CK_MANTIS) par_swap_modes(po); return 0;
@@ -484,5 +487,9 @@ int main(int argc, char **argv)
     parse_opts(argc, argv);
     run_prelude();
     if (!g_opts.sub) engine_error("--sub required");
+    if (g_prelude_crashed) {   /* init / key / use / cleanup of CTR and parallel objects, all valid, on zeroed handles: a life-cycle matter */
+        char sg[64]; snprintf(sg, sizeof(sg), "C%s/valid-call-sequence-died", !strcmp(g_opts.sub, "c17") ? "17" : (!strcmp(g_opts.sub, "c16") ? "16" : "15"));
+        violation(sg, "", "a process making only valid calls (init, key set-up, data, cleanup of one CTR and one parallel object per cipher, prelude %d of harness/prelude.c) died before reaching the end", g_prelude_used);
+    }
     return mc_guarded_main(body);
 }
